@@ -473,6 +473,7 @@ impl Ctx {
     }
 
     fn describe_hang(&self, phase: &str) -> (String, String) {
+        let mut lost_wake = false;
         let mut kinds = BTreeSet::new();
         let mut lines = Vec::new();
         if self.spec.pre == Pre::ClosedDropped {
@@ -498,7 +499,10 @@ impl Ctx {
             // future resolve when it is polled again without having been woken?
             p.poll_now();
             let diag = match &p.result {
-                Some(r) => format!("a poll without wake-up now yields {r}: the wake-up was lost"),
+                Some(r) => {
+                    lost_wake = true;
+                    format!("a poll without wake-up now yields {r}: the wake-up was lost")
+                }
                 None => "still pending when polled again: the awaited condition has not occurred".to_string(),
             };
             lines.push(format!("pending {} future on {} ({polls} polls, woken={woken}; {diag})", p.kind, p.side.name()));
@@ -523,12 +527,24 @@ impl Ctx {
             kinds.clear();
             kinds.insert(self.row().class());
         }
+        // After Endpoint::close + shutdown the closing endpoint is gone once its drain period is
+        // over: it no longer answers the peer's packets with CONNECTION_CLOSE. A peer that missed the
+        // one CONNECTION_CLOSE datagram (real UDP on a loaded machine) legitimately learns of the
+        // close only from its idle timeout, which is far beyond the watchdog. Only the REMOTE side
+        // pending, without a lost wake-up and without having been told (no close reason), is
+        // therefore not a verdict about compio-quic: it is counted (see PEER_NEVER_TOLD).
+        let remote_untold = self.spec.close.is_some_and(|c| {
+            let remote = if c.side == Side::Client { Side::Server } else { Side::Client };
+            self.sides[remote.idx()].conn.borrow().as_ref().is_some_and(|c| c.close_reason().is_none())
+        });
+        let legal = phase == "after-close" && ck == "endpoint-shutdown" && !lost_wake && remote_untold && !kinds.is_empty() && kinds.iter().all(|k| k.starts_with("remote."));
         let key = format!(
-            "{}:never-stranded:{}:{}:{}",
+            "{}:never-stranded:{}:{}:{}{}",
             self.scenario(),
             phase,
             ck,
-            kinds.iter().cloned().collect::<Vec<_>>().join("+")
+            kinds.iter().cloned().collect::<Vec<_>>().join("+"),
+            if legal { PEER_NEVER_TOLD } else { "" }
         );
         let what = format!(
             "{} [{}] {}: not resolved within the watchdog: {}; last events: {}",
@@ -541,6 +557,9 @@ impl Ctx {
         (key, what)
     }
 }
+
+/// key suffix of a hang that is legal (see `describe_hang`): counted, never reported
+pub const PEER_NEVER_TOLD: &str = ":peer-never-told";
 
 // ---------------------------------------------------------------------------------------------
 // flows
